@@ -85,3 +85,11 @@ Print Assumptions nwchem_whole_file_write_total.
 
 Example some_writer_recontracts : exists w, assoc "nwchem" writer_map = Some w /\ forallb recontracting (w_pipeline w) = true /\ w_pipeline w <> [].
 Proof. eexists; split; [vm_compute; reflexivity|]. split; [vm_compute; reflexivity | discriminate]. Qed.
+
+(* the Gaussian94 ECP blocks: every gaussian exponent / coefficient (with the D marker the writer prints), every r exponent
+   and the electron count is a token of the text *)
+From BSE Require Import Model.G94Ecp Proofs.G94EcpDefs.
+From BSE Require Proofs.G94EcpSpec.
+Theorem gaussian94_ecp_no_number_lost : g94_ecp_no_number_lost_stmt.
+Proof. exact G94EcpSpec.g94_ecp_no_number_lost. Qed.
+Print Assumptions gaussian94_ecp_no_number_lost.
